@@ -768,6 +768,11 @@ func (c *fnCtx) forStmt(ind int, s *ast.ForStmt) {
 }
 
 // ownedSlice: may elements of the slice-valued expression e be assigned? "" if so, else the reason.
+// (1) e is a field path of the pointee of a pointer parameter (the pointee is taken to own its slices: "Ownership" in
+// notes/go2lean.md); (2) the function makes no copy of that slice value: every occurrence of e in it is the operand of an
+// index expression, of len, of a range statement, the left-hand side of an assignment, or sits inside the right-hand side of
+// an assignment to e itself (`e = append(e, x)`, `e = e[:0]`). Otherwise a second slice value could share the backing array
+// and would have to see the write.
 func (c *fnCtx) ownedSlice(e ast.Expr) string {
 	sel, ok := unparen(e).(*ast.SelectorExpr)
 	if !ok {
@@ -777,7 +782,65 @@ func (c *fnCtx) ownedSlice(e ast.Expr) string {
 	if root == nil || !c.ptrs[c.info.Uses[root]] {
 		return "only a slice that is a field of the pointee of a pointer parameter may be written (slices may alias)"
 	}
-	return ""
+	path := exprText(c.u.l.fset, sel)
+	bad := ""
+	var visit func(n ast.Node, allowed bool)
+	is := func(x ast.Expr) bool { return x != nil && exprText(c.u.l.fset, unparen(x)) == path }
+	visit = func(n ast.Node, inSelfAssign bool) {
+		if n == nil || bad != "" {
+			return
+		}
+		switch x := n.(type) {
+		case *ast.AssignStmt:
+			self := false
+			for _, l := range x.Lhs {
+				if is(l) {
+					self = true
+				} else {
+					visit(l, inSelfAssign)
+				}
+			}
+			for _, r := range x.Rhs {
+				visit(r, inSelfAssign || self)
+			}
+			return
+		case *ast.IndexExpr:
+			if is(x.X) {
+				visit(x.Index, inSelfAssign)
+				return
+			}
+		case *ast.RangeStmt:
+			if is(x.X) {
+				visit(x.Body, inSelfAssign)
+				return
+			}
+		case *ast.CallExpr:
+			if id, ok := unparen(x.Fun).(*ast.Ident); ok && (id.Name == "len" || id.Name == "cap") && len(x.Args) == 1 && is(x.Args[0]) {
+				if _, isb := c.info.Uses[id].(*types.Builtin); isb {
+					return
+				}
+			}
+		case ast.Expr:
+			if is(x) {
+				if !inSelfAssign {
+					bad = fmt.Sprintf("the slice %s is also used as a value at %s (a copy of it would share the elements that are written)", path, c.u.l.fset.Position(x.Pos()))
+				}
+				return
+			}
+		}
+		// children
+		ast.Inspect(n, func(ch ast.Node) bool {
+			if ch == n || ch == nil {
+				return ch == n
+			}
+			visit(ch, inSelfAssign)
+			return false
+		})
+	}
+	if c.scope != nil {
+		visit(c.scope, false)
+	}
+	return bad
 }
 
 // defineAlias: `p := &s[i]` — p stands for the element s[i] for the rest of the enclosing statement list. Sound when, as long
